@@ -157,6 +157,9 @@ fn main() {
         libc::sigaddset(&mut set, libc::SIGALRM);
         libc::pthread_sigmask(libc::SIG_BLOCK, &set, std::ptr::null_mut());
         std::thread::spawn(|| {
+            // seconds without progress after which an operation counts as "did not return"
+            // (X01_WATCHDOG_S: the check stretches it under load and when it re-confirms a trip)
+            let limit: u64 = std::env::var("X01_WATCHDOG_S").ok().and_then(|s| s.parse().ok()).unwrap_or(5);
             let mut last = PROGRESS.load(Ordering::SeqCst);
             let mut since = Instant::now();
             loop {
@@ -165,7 +168,7 @@ fn main() {
                 if now != last {
                     last = now;
                     since = Instant::now();
-                } else if since.elapsed().as_secs() >= 5 && CUR.load(Ordering::SeqCst) != u64::MAX {
+                } else if since.elapsed().as_secs() >= limit && CUR.load(Ordering::SeqCst) != u64::MAX {
                     let c = CUR.load(Ordering::SeqCst);
                     let msg = format!("{{\"seq\":{},\"i\":{},\"hang\":true}}\n", c >> 16, c & 0xffff);
                     libc::write(1, msg.as_ptr().cast(), msg.len());
